@@ -747,6 +747,25 @@ def run(ctx):
     ctx.cov["pair_interleavings"] = len(pair_results)
     ctx.cov["pair_interleaving_start_states"] = nreps
 
+    # ---- D: resets in error states on the REAL stack (real spa, real tasks): the manager's own reset runs INSIDE the spa's ping-loop
+    #      task, which disconnect() cancels - with a client handler that really suspends it must still land in IDLE with nothing left
+    try:
+        from props import c10
+        for sc in c10.ERROR_SCENARIOS:
+            for origin in ("self", "user"):
+                e = c10.explore_error(sc, origin, True)
+                ctx.count("evaluations")
+                ctx.hist("real_stack_error_resets", f"{sc}:{origin}:{','.join(e.get('reset_outcomes', ['none'])[:2])}")
+                for outc, landed, frm in zip(e.get("reset_outcomes", []), e.get("reset_landed", []), e.get("reset_from", [])):
+                    good = outc == "returned" and landed == {"state": "IDLE", "facade": False, "spa": False, "descriptors": False}
+                    if not good:
+                        ctx.violation(f"reset-not-in-idle:real-stack:{sc}:{origin}", {"kind": "real-stack-reset", "scenario": sc, "origin": origin},
+                                      "a reset always lands in IDLE with no facade, spa or descriptors",
+                                      {"outcome": outc, "landed": landed, "issued_from_task": frm})
+                        break
+    except Exception as e:  # noqa
+        ctx.obligation_broken("harness:real-stack-resets", f"{type(e).__name__}: {e}")
+
     # ---- correspondence with the Lean model
     try:
         model = Driver("Driver/C08.lean").run(all_lines)
@@ -791,6 +810,12 @@ def run(ctx):
 
 
 def replay(inp):
+    if inp.get("kind") == "real-stack-reset":
+        from props import c10
+        e = c10.explore_error(inp["scenario"], inp["origin"], True)
+        bad = [(o, l) for o, l in zip(e.get("reset_outcomes", []), e.get("reset_landed", []))
+               if not (o == "returned" and l == {"state": "IDLE", "facade": False, "spa": False, "descriptors": False})]
+        return bool(bad), bad[:2] or "every reset landed in IDLE with nothing left"
     try:
         alphabet()      # fills the path aliases from the regenerated table
     except Exception:  # noqa
